@@ -69,7 +69,7 @@ func init() {
 		Technique: "property-based testing (rapid): typed expression generator vs an independent reference evaluator, comparing output and callback log",
 		Rule: "typed expression trees (depth <= 5) over all operator classes inside the agreement region, operands from context variables carried by several Go types, " +
 			"recording functions/filters/tests anywhere except under and/or right operands; oracle: reference evaluator output == stick output and predicted callback log == recorded log. " +
-			"Non-trivial: some printed expression has depth >= 2 and >= 2 distinct operator classes, or a callback with >= 2 arguments; distinct by program. Also: non-numeric words tested for membership in lists and ranges of numbers; large instances (1500-operand chains, 1500-element literals and argument lists, 400 nested conditionals / parentheses).",
+			"Non-trivial: some printed expression has depth >= 2 and >= 2 distinct operator classes, or a callback with >= 2 arguments; distinct by program. Also: non-numeric words tested for membership in lists and ranges of numbers; brace text around interpolations ({#{k}}); ordering comparisons of non-numeric strings; hashes with integer keys carried by map[int]T / map[uint8]T / map[int64]any reached by .N, [N] and ['N']; large instances (1500-operand chains, 1500-element literals and argument lists, 400 nested conditionals / parentheses).",
 		Assumptions: []string{
 			"the reference evaluator (internal/model) is written from the property statement and Twig documentation and is trusted inside the documented agreement region; cases leaving the region are discarded and counted",
 		},
